@@ -575,6 +575,79 @@ fn c13_position(rep: &Reporter, p: &Pos, strings: &[String], calls: &AtomicU64, 
     calls.fetch_add(n, Ordering::Relaxed);
 }
 
+/// `Move::to_pgn_string(board)` with Move VALUES that were generated on other boards: the successors
+/// of `p` (the opponent's moves), the colour-flipped twin, the same placement at another clock.
+/// The outcome must be the one `uci_to_pgn` gives for the move's text — the SAN if that text is a
+/// legal move here, an error otherwise — and the board must be left as it was.
+fn c13_foreign_moves(rep: &Reporter, p: &Pos, calls: &AtomicU64) {
+    let fen = p.to_fen();
+    let mut b = match board_from_pos(p) {
+        Ok(b) => b,
+        Err(_) => return,
+    };
+    let before = snap(&b);
+    let legal: Vec<(String, Mv)> = p.legal().into_iter().map(|m| (m.uci(), m)).collect();
+    let mut sources: Vec<(&'static str, Pos)> = Vec::new();
+    for (_, m) in &legal {
+        sources.push(("successor", p.make(m)));
+    }
+    sources.push(("flipped_twin", p.flip()));
+    let mut other_clock = p.clone();
+    other_clock.half = (p.half + 37) % 90;
+    other_clock.full = p.full + 11;
+    sources.push(("same_placement_other_clocks", other_clock));
+    let mut other_side = p.clone();
+    other_side.stm = 1 - p.stm;
+    other_side.ep = NO_EP;
+    if other_side.is_legal_position() {
+        sources.push(("same_placement_other_side_to_move", other_side));
+    }
+    let mut seen: HashSet<u64> = HashSet::new();
+    for (origin, q) in &sources {
+        let qb = match board_from_pos(q) {
+            Ok(x) => x,
+            Err(_) => continue,
+        };
+        for mv in qb.generate_pseudo_legal_moves() {
+            if !seen.insert(mv.bits) {
+                continue;
+            }
+            calls.fetch_add(1, Ordering::Relaxed);
+            let text = mv.to_uci_string();
+            let denotes = legal.iter().find(|(u, _)| *u == text).map(|(_, m)| *m);
+            let case = |extra: Value| json!({"kind": "foreign_move", "fen": fen, "move_generated_on": q.to_fen(), "origin": origin, "move": text, "detail": extra});
+            match guarded(|| mv.to_pgn_string(&mut b)) {
+                Ok(r) => {
+                    match (&r, &denotes) {
+                        (Ok(s), Some(m)) => {
+                            let want = san(p, m);
+                            if *s != want {
+                                rep.report("to_pgn_string:foreign_move:wrong_text".to_string(), case(json!({"expected": want, "actual": s})));
+                            }
+                        }
+                        (Ok(s), None) => rep.report(format!("to_pgn_string:foreign_move:accepts_move_that_is_not_legal_here:{}", origin), case(json!({"returned": s}))),
+                        (Err(_), Some(_)) => rep.report("to_pgn_string:foreign_move:rejects_legal_text".to_string(), case(json!({}))),
+                        (Err(_), None) => {}
+                    }
+                    let after = snap(&b);
+                    if after != before {
+                        rep.report(format!("to_pgn_string:foreign_move:board_modified:{}", if r.is_ok() { "ok" } else { "err" }), case(json!({"diff": before.diff(&after), "after": after.to_pos().to_fen()})));
+                        if let Ok(nb) = board_from_pos(p) {
+                            b = nb;
+                        }
+                    }
+                }
+                Err(m) => {
+                    rep.report(format!("panic:to_pgn_string:foreign_move:{}", short(&m)), case(json!({"panic": m})));
+                    if let Ok(nb) = board_from_pos(p) {
+                        b = nb;
+                    }
+                }
+            }
+        }
+    }
+}
+
 /// all move lists of length <= 3 over (up to 4 legal moves per step) ∪ {illegal pseudo-legal,
 /// non-existent, malformed}, each call repeated twice on the same board
 fn c13_lists(rep: &Reporter, p: &Pos, lists_run: &AtomicU64) {
@@ -721,6 +794,7 @@ pub fn run_c13(tier: Tier) -> i32 {
     let calls = AtomicU64::new(0);
     let classes: [AtomicU64; 3] = Default::default();
     let lists_run = AtomicU64::new(0);
+    let foreign_calls = AtomicU64::new(0);
     let t0 = Instant::now();
     let n_mal_positions = if tier == Tier::Quick { 12 } else { 60 };
     let idx: Vec<usize> = (0..positions.len()).collect();
@@ -736,6 +810,9 @@ pub fn run_c13(tier: Tier) -> i32 {
         if i % 4 == 0 || tier == Tier::Thorough {
             c13_lists(&rep, p, &lists_run);
         }
+        if i % 2 == 0 || tier == Tier::Thorough {
+            c13_foreign_moves(&rep, p, &foreign_calls);
+        }
     });
     let mut cov = Coverage::new();
     cov.states = positions.len() as u64;
@@ -745,6 +822,7 @@ pub fn run_c13(tier: Tier) -> i32 {
     cov.set("move_strings_per_position", json!(strings.len()));
     cov.set("malformed_strings", json!(malformed.len()));
     cov.set("off_board_square_strings_per_position", json!(offboard.len()));
+    cov.set("to_pgn_string_calls_with_moves_generated_on_other_boards", json!(foreign_calls.load(Ordering::Relaxed)));
     cov.set("positions_with_malformed_sweep", json!(n_mal_positions.min(positions.len())));
     cov.set("legal_strings_judged", json!(classes[0].load(Ordering::Relaxed)));
     cov.set("pseudo_legal_but_illegal_strings_judged", json!(classes[1].load(Ordering::Relaxed)));
@@ -778,6 +856,11 @@ pub fn replay_c13(case: &Value) -> i32 {
         "move_list" => {
             let n = AtomicU64::new(0);
             c13_lists(&rep, &p, &n);
+        }
+        "foreign_move" => {
+            // the whole (small) family of this position is re-run; the case names the first failure
+            let n = AtomicU64::new(0);
+            c13_foreign_moves(&rep, &p, &n);
         }
         _ => return 2,
     }
